@@ -105,6 +105,8 @@ def extra (L : Ledger) (e : Event) (noConflict : Bool := true) : Bool :=
     -- a transaction seen for the first time does not conflict with a confirmed one
     isKnown L t.hash || ((!noConflict || t.ins.all fun i => !spentConfirmed L i) && validRefs L t)
   | .confirmed _ t _ => isKnown L t.hash || validRefs L t
+  -- hashes identify transactions: the abandoned transaction is the unconfirmed transaction with that hash
+  | .abandoned t => L.pool.contains t
   | _ => true
 
 /-! ### executable refinement check -/
